@@ -111,6 +111,9 @@ def dupOpts : List Opt → Bool
   | [] => false
   | o :: os => os.any (fun p => p.tag == o.tag) || dupOpts os
 
+/-- the value of the last `-s` -/
+def sOptOf (opts : List Opt) : Option Nat := lastVal opts (fun | .s v => some v | _ => none)
+
 structure MainResult where
   status : Nat
   argvs : List (List (List UInt8))
@@ -137,7 +140,7 @@ def xargsMain (opts : List Opt) (cmd : List (List UInt8)) (input : List UInt8)
   -- validate_positive_usize
   if opts.any (fun | .n 0 => true | .l 0 => true | .s 0 => true | _ => false) then ⟨1, []⟩ else
   let nz := normalize opts
-  let sOpt := lastVal opts (fun | .s v => some v | _ => none)
+  let sOpt := sOptOf opts
   let lim : Limits := ⟨nz.n, nz.l, sOpt, sys, ptr, maxArg⟩
   let cfg : Config :=
     { lim := lim, x := opts.any (· == .x),
